@@ -13,6 +13,56 @@ PROPS = {
         "level_note": "Trusted: Lean kernel; the M-SEL transcription (validated by the correspondence run); Rust's sort_by/sort_by_key modelled by List.mergeSort; HashSet::contains modelled by list membership.",
         "design_ref": "§5 C15",
     },
+    "C05": {
+        "title": "bare leading ignore-file directive silences the file, and only then",
+        "lean": ["DL.Props.C05"],
+        "drives": [{"sub": "pipe", "quick": 1500, "thorough": 15000}],
+        "search": ["C05"],
+        "technique": "Lean 4 proof over models of parse_ignore_comment / parse_file_ignore_directives / lint_inner; correspondence via spy rule (comments, parsed directives, result) on generated files",
+        "level_text": "Theorems: a file directive without codes makes lint_inner return [] for every rule output, configuration and external result, and otherwise the pipeline runs; block comments are never directives; the file directive is a function of the initial comments only; first directive wins. Tie: the model's directive parser and pipeline agree with the real code on generated files with the directive text at every placement (leading, after shebang, after other comments, late, block comment, string/template, decoy words), all White_Space separators and reason suffixes, under 4 directive-word configurations and random rule subsets.",
+        "level_note": "Trusted: Lean kernel; M-DIR/M-PIPE transcriptions (validated by correspondence); swc comment attachment is a parameter (the spy re-states the three shebang cases over the public API). Interpretation: 'contains a bare directive' = the first file directive among the leading comments is bare (pinned by the repo's own unit test).",
+        "design_ref": "§5 C05", "trusted": PIPE_TRUST,
+    },
+    "C06": {
+        "title": "directives suppress exactly what they name",
+        "lean": ["DL.Props.C06"],
+        "drives": [{"sub": "pipe", "quick": 1500, "thorough": 15000}],
+        "search": ["C06"],
+        "technique": "Lean 4 proof (filter characterisation of check_ignore_directive_usage, count/permutation through the stable sort) + correspondence via spy rule + metamorphic neutralised-directive search",
+        "level_text": "Theorems for every raw list and directive state: kept = raw.filter(not suppressed) in order; result = stable sort of kept ++ accounting; a raw diagnostic is in the result iff produced and unsuppressed, with its exact multiplicity; kept diagnostics keep their relative order; with no directives the result is the sorted raw list. Tie: model = implementation on generated directive layouts (first/last line, consecutive directives, CRLF, multi-line statements, duplicate/unknown codes, file+line on one code, trailing same-line comments).",
+        "level_note": "Trusted: Lean kernel; M-PIPE transcription (validated by correspondence, with real HashMap iteration orders observed by the spy); SourceTextInfo::line_index is a parameter.",
+        "design_ref": "§5 C06", "trusted": PIPE_TRUST,
+    },
+    "C16": {
+        "title": "entry points and external-linter hook behave identically",
+        "lean": ["DL.Props.C16"],
+        "drives": [{"sub": "pipe", "quick": 1500, "thorough": 15000}, {"sub": "entry", "quick": 300, "thorough": 3000}],
+        "search": ["C16"],
+        "technique": "Lean 4 proof over lint_inner with the external result as a parameter; correspondence with generated external callbacks; lint_file vs lint_with_ast compared on generated inputs",
+        "level_text": "Theorems: external diagnostics are appended and go through the same collect (filtering, accounting with declared codes known+enabled, one sort); a declining callback is a no-op; an external diagnostic is kept iff unsuppressed (range-less ones unless file-ignored); result sorted. Tie: callbacks returning generated diagnostics (declared/undeclared codes, in-bounds ranges or none) vs the model; both entry points on the same inputs.",
+        "level_note": "Trusted: Lean kernel; M-PIPE transcription; that lint_file = parse ∘ lint_inner is read off linter.rs:112-154 and checked by the entry-point comparison run, not proved.",
+        "design_ref": "§5 C16", "trusted": PIPE_TRUST,
+    },
+    "C07": {
+        "title": "every code in every directive is accounted for exactly once",
+        "lean": ["DL.Props.C07"],
+        "drives": [{"sub": "pipe", "quick": 1500, "thorough": 15000}],
+        "search": ["C07"],
+        "technique": "Lean 4 proof (iff-characterisation of both accounting reports per (directive, code), at-most-once via Nodup, exactly-one corollary) + correspondence via spy rule + independent accounting reference computed from what the directive text means",
+        "level_text": "Theorems for every raw list, directive state, configuration, known-code set and external code list: unknown_reported_iff, unused_reported_iff (with used_final_iff: used = previously marked, or suppressed a diagnostic, or the file-level ban-unknown-rule-code switch when an unknown code exists), reported_at_most_once (well-formed state), exactly_one (under: configured ⊆ known, every diagnostic code known-or-declared), line-level switches have no effect. Tie: model = implementation on generated layouts × rule subsets with/without the accounting rules × external code sets.",
+        "level_note": "Trusted: Lean kernel; M-PIPE transcription (used flags kept as a separate mark set; validated by correspondence). Interpretation: codes of diagnostics that are neither built-in nor declared by the external linter are outside the accounting oracle (such a code both suppresses and is unknown).",
+        "design_ref": "§5 C07", "trusted": PIPE_TRUST,
+    },
+    "C17": {
+        "title": "custom directive names are independent",
+        "lean": ["DL.Props.C17"],
+        "drives": [{"sub": "pipe", "quick": 2000, "thorough": 20000}],
+        "search": ["C05", "C06", "C07", "C17"],
+        "technique": "Lean 4 proof over the word-selection model + syn-translated table of LinterContext::new's initialisers and of the directive parsers' call sites re-decided on every run + correspondence under the four (custom/default) word configurations",
+        "level_text": "Theorems: each word is its own option or its own default; overriding one leaves the other; a comment is a directive only if its first word is the configured word (so an overridden default stops acting). `decide` on Gen/LinterCtx (regenerated from src/linter.rs): each word field reads its own option and default, each parser receives its own field, no other field reads the word options. Tie: pipe correspondence and the C05-C07 oracles under 4 word configurations with decoy (default) words.",
+        "level_note": "Trusted: Lean kernel; the syn translator (fails closed: an unrecognised initialiser shape lands in the 'other fields' table and breaks the decide); M-DIR/M-PIPE transcriptions.",
+        "design_ref": "§5 C17", "trusted": PIPE_TRUST,
+    },
 }
 
 ALL_IDS = [f"C{n:02d}" for n in range(1, 21)]
